@@ -1,6 +1,6 @@
 #!/usr/bin/env python3
 """Confirm a sub-agent's seeded change independently and run the checks against it.
-usage: evalseed.py SRC_DIR ID [--features F] [--tier quick]
+usage: evalseed.py SRC_DIR ID [--features F] [--cargo-args "--release --no-default-features"] [--tier quick]
   SRC_DIR contains patch.diff, demo/ (integration test .rs files + README.txt), notes.md
 Steps (all in a scratch git worktree of /repo under /tmp/ev, removed afterwards):
   1. patch applies; existing suite passes with it (cargo test --workspace)
@@ -18,13 +18,14 @@ def main():
     feats = None; tier = "quick"
     if "--features" in a: feats = a[a.index("--features") + 1]
     if "--tier" in a: tier = a[a.index("--tier") + 1]
+    extra = a[a.index("--cargo-args") + 1].split() if "--cargo-args" in a else []
     wt = "/tmp/ev/" + sid
     os.makedirs("/tmp/ev", exist_ok=True)
     subprocess.run(["git", "-C", "/repo", "worktree", "remove", "--force", wt], capture_output=True)
     rc, out = sh(["git", "-C", "/repo", "worktree", "add", "-q", wt, "HEAD"], "/")
     if rc: print(out); return 2
     env = dict(os.environ, CARGO_TARGET_DIR="/tmp/ev/target", CARGO_NET_OFFLINE="true")
-    meta = {"id": sid, "source": src, "features": feats}
+    meta = {"id": sid, "source": src, "features": feats, "cargo_args": extra}
     try:
         patch = os.path.join(src, "patch.diff")
         rc, out = sh(["git", "apply", "--check", patch], wt)
@@ -47,7 +48,7 @@ def main():
             outs = []
             ok = True
             for d in demos:
-                cmd = ["cargo", "test", "-p", "fast-tlsh", "--offline", "--test", d] + (["--features", feats] if feats else [])
+                cmd = ["cargo", "test", "-p", "fast-tlsh", "--offline", "--test", d] + (["--features", feats] if feats else []) + extra
                 rc, out = sh(cmd, wt, env)
                 outs.append((d, rc, re.findall(r"test result: .*", out)[:2]))
                 ok = ok and rc == 0
